@@ -944,6 +944,48 @@ fn plans(tier: Tier) -> Vec<Plan> {
     v
 }
 
+/// Setting an option back to "none" on a request, a session or a clone replaces what the lineage
+/// carried: default_charset(None) after a Some(..) means windows-1252 again (the documented default).
+fn charset_reset_cells(ctx: &Ctx) -> u64 {
+    let mut n = 0;
+    // bytes that read "\u{e9}" in UTF-8 and "\u{c3}\u{a9}" in windows-1252
+    let wire = b"HTTP/1.1 200 OK\r\nContent-Type: text/plain\r\nContent-Length: 2\r\n\r\n\xc3\xa9".to_vec();
+    for how in ["request-over-session", "same-builder", "clone-of-session", "session-itself", "control-not-reset"] {
+        n += 1;
+        let world = World::single(Script::plain(wire.clone()), false);
+        let res = guarded(|| {
+            let mut s = attohttpc::Session::new();
+            s.default_charset(Some(attohttpc::charsets::UTF_8));
+            let rb = match how {
+                "request-over-session" => s.get(URL).default_charset(None),
+                "same-builder" => attohttpc::get(URL).default_charset(Some(attohttpc::charsets::UTF_8)).default_charset(None),
+                "clone-of-session" => {
+                    let mut c = s.clone();
+                    c.default_charset(None);
+                    c.get(URL)
+                }
+                "session-itself" => {
+                    s.default_charset(None);
+                    s.get(URL)
+                }
+                _ => s.get(URL),
+            };
+            rb.send().and_then(|r| r.text())
+        });
+        drop(world);
+        let want = if how == "control-not-reset" { "\u{e9}" } else { "\u{c3}\u{a9}" };
+        if !matches!(&res, Ok(Ok(t)) if t == want) {
+            ctx.violation(
+                "C16:setting-not-reset",
+                format!("default_charset(Some(UTF-8)) then default_charset(None) ({how}): an unlabelled body C3 A9 reads as {res:?}, expected {want:?}"),
+                json!({"engine": "c16", "charset_reset": how}),
+                n,
+            );
+        }
+    }
+    n
+}
+
 pub fn c16(ctx: &Ctx) -> Report {
     let base = attohttpc::Session::new().verif_snapshot();
     let mut tot = Stats { states: 0, transitions: 0, executions: 0, sends: 0 };
@@ -957,7 +999,7 @@ pub fn c16(ctx: &Ctx) -> Report {
         tot.sends += s.sends;
     }
     let smoke = threads_smoke(ctx, &base);
-    let mcells = method_cells(ctx) + obs_text_cells(ctx) + auth_helper_cells(ctx);
+    let mcells = method_cells(ctx) + obs_text_cells(ctx) + auth_helper_cells(ctx) + charset_reset_cells(ctx);
     tot.executions += mcells;
     ctx.sample(json!({"plan": ps[0], "history": [Op::NewSession, Op::Set(0, Field::MaxRedirections, 1), Op::NewBuilder(0), Op::Set(1, Field::MaxRedirections, 2), Op::Clone(0), Op::Drop(0)]}));
     ctx.sample(json!({"plan": ps[ps.len() - 1]}));
